@@ -245,7 +245,11 @@ def run_case(case):
                 labels.add("rejected-" + "+".join(sorted(kinds)))
             else:
                 try:
-                    env.add_agent(o, *pos)
+                    if not spatial and k % 5 == 2:
+                        env.addAgent(o)                 # the deprecated spelling is still an entry point
+                        labels.add("deprecated-aliases")
+                    else:
+                        env.add_agent(o, *pos)
                 except Exception as e:
                     raise Violation("valid-add-raised", f"{tag}: adding {o.id} at {pos} raised {type(e).__name__}: {e}")
                 resident[o.id] = o
@@ -262,7 +266,11 @@ def run_case(case):
                 if 0 < keys.index(sid) < len(keys) - 1:
                     stats["middle_removal"] = True
                 try:
-                    env.remove_agent(sid)
+                    if k % 5 == 3:
+                        env.removeAgent(sid)
+                        labels.add("deprecated-aliases")
+                    else:
+                        env.remove_agent(sid)
                 except Exception as e:
                     raise Violation("valid-remove-raised", f"{tag}: removing resident {sid} raised {type(e).__name__}: {e}")
                 where.pop(id(resident.pop(sid)), None)
@@ -273,7 +281,7 @@ def run_case(case):
             i = int(op["id"]) % (NIDS + 1)
             sid = f"a{i}" if i < NIDS else "zz"
             if sid in resident:
-                got = env.get_agent(sid, True) if op.get("strict") else env.get_agent(sid)
+                got = env.get_agent(sid, True) if op.get("strict") else (env.getAgent(sid) if k % 2 else env.get_agent(sid))
                 if got is not resident[sid]:
                     raise Violation("lookup", f"{tag}: returned {got!r}")
             elif op.get("strict"):
